@@ -12,22 +12,6 @@ func init() {
 	verifRegister("C02_hist", verifH_C02_hist)
 }
 
-// verifRecover models process death followed by start-up: the OS files of rs
-// are dropped without any flush, InitStorage runs, and the database is reopened.
-func verifRecover(rs *storage.RelationService, tag string) *storage.RelationService {
-	storage.VerifAbandon(rs)
-	err := storage.InitStorage()
-	verifAssert(err == nil, tag+"recovery-ok")
-	if err != nil {
-		return nil
-	}
-	rs2, err := storage.VerifOpenRelation("db", 0)
-	verifAssert(err == nil, tag+"reopen-ok")
-	if err != nil {
-		return nil
-	}
-	return rs2
-}
 
 // H02-hist: prefix, then d free statements with a chosen flush placement, then
 // a crash; after recovery every table equals the model of the acknowledged
